@@ -47,6 +47,9 @@ def _run(prop, repo, tier):
     from .c17 import check_movement_contracts
 
     check_movement_contracts(prop, res, repo)
+    from ..framework_rules import check_helper_config
+
+    check_helper_config(prop, res, repo)
     res.universe = {"classes": GROUPS[prop]}
     return res, cas
 
